@@ -1,5 +1,6 @@
 import DeltaModel.Proto
 import DeltaModel.LineNumbers
+import DeltaModel.WholeDiff
 /-!
 Model driver for C05 (`drv_linenum`). Same line protocol as /repo/src/verif_hooks/linenum.rs.
 State: the configuration set by the last `cfg` request (only the options that matter for the
@@ -172,6 +173,26 @@ def showCellNums : Option Cell → String
   | none => " none"
   | some x => s!" {showOpt x.left} {showOpt x.right}"
 
+/-- `linenum.whole` item: `N x<minus file> x<plus file>` | `H x<@@ line>` | `L <0 minus|1 plus|2 unchanged|3 other>` -/
+def pItem : P Whole.Item := do
+  let t ← pNext
+  if t = "N" then
+    let m ← pStr
+    let p ← pStr
+    pure (.names m p)
+  else if t = "H" then
+    let l ← pStr
+    pure (.header l.toList)
+  else if t = "L" then
+    let k ← pNat
+    pure (.line (if k = 0 then some Kind.minus else if k = 1 then some Kind.plus else if k = 2 then some Kind.ctx else none))
+  else failure
+
+def showORow : Whole.ORow → String
+  | .header path n => s!" H {hexOfString path} {n}"
+  | .line none w pf => s!" R {w} {hexOfString pf}"
+  | .line (some x) w pf => s!" C {showOpt x.left} {showOpt x.right} {w} {hexOfString pf}"
+
 def step (cfg : Cfg) (line : String) : String :=
   match fields line with
   | "linenum.pad" :: rest =>
@@ -267,6 +288,14 @@ def step (cfg : Cfg) (line : String) : String :=
         | .ok n, .ok (c, w) => s!"ok {n} {hexOfString (headerPath m p)} {c.left} {c.right} {w}"
         | .error e, _ => panicLine e
         | _, .error e => panicLine e
+    | none => "ERR"
+  | "linenum.whole" :: rest =>
+    -- a whole multi-file, multi-hunk input through `Whole.runWhole` (unified view)
+    match runP (do let b ← pNat; let items ← pCounted pItem; pure (b, items)) rest with
+    | some (b, items) =>
+      match Whole.runWhole b items with
+      | .error e => panicLine e
+      | .ok rows => s!"ok {rows.length}" ++ String.join (rows.map showORow)
     | none => "ERR"
   | "linenum.defaults" :: [] =>
     s!"ok {hexOfString Generated.LineNum.defaultLeftFormat} {hexOfString Generated.LineNum.defaultRightFormat} {hexOfString Generated.LineNum.sbsLeftFormat} {hexOfString Generated.LineNum.sbsRightFormat} {Generated.LineNum.lineBufferSizeDefault}"
